@@ -8,9 +8,9 @@ dirs=("$@"); [ ${#dirs[@]} -eq 0 ] && dirs=(seeded/*/)
 for d in "${dirs[@]}"; do
   d=${d%/}; name=$(basename "$d"); prop=${name%%-*}
   [ -f "$d/patch.diff" ] || continue
-  git -C /repo diff --quiet || { echo "/repo is not clean"; exit 2; }
-  git -C /repo apply "$PWD/$d/patch.diff" || { echo "$name: patch does not apply"; continue; }
-  scripts/baseline_summary.sh > .work/bl.txt 2>&1; bl=$(cat .work/bl.txt | tail -1)
+  git -C "$VERIF_REPO" diff --quiet || { echo "/repo is not clean"; exit 2; }
+  git -C "$VERIF_REPO" apply "$PWD/$d/patch.diff" || { echo "$name: patch does not apply"; continue; }
+  scripts/baseline_summary.sh > .work/bl.$$.txt 2>&1; bl=$(cat .work/bl.$$.txt | tail -1)
   checks=$(python3 -c "import json,sys; m=json.load(open('$d/meta.json')); print(' '.join(m.get('run_checks',['$prop'])))" 2>/dev/null || echo $prop)
   res="{"
   for c in $checks; do
@@ -20,7 +20,7 @@ for d in "${dirs[@]}"; do
     echo "$name $c rc=$rc $keys"
   done
   res="${res%,}}"
-  git -C /repo checkout -q -- . ; git -C /repo clean -fdq
+  git -C "$VERIF_REPO" checkout -q -- . ; git -C "$VERIF_REPO" clean -fdq
   python3 - "$d" "$bl" "$res" <<'PY'
 import json,sys,os
 d,bl,res=sys.argv[1:4]
